@@ -135,8 +135,11 @@ class Built(object):
         return status, outs, events
 
 
-def build(name, ffi=False, no_inline=True, opt='-O1', extra_defs=(), src=None):
-    """Compile /verif/harness/c/<name>.c (or src) both ways; raises BuildError with the compiler output."""
+def build(name, ffi=False, no_inline=True, opt='-O1', extra_defs=(), src=None, prepare=None,
+          ir_cflags=()):
+    """Compile /verif/harness/c/<name>.c (or src) both ways; raises BuildError with the compiler
+    output.  prepare(work_dir), if given, runs before the compilers (generated includes such as
+    the function slices of slice.py go there; the work dir is on the include path)."""
     work = os.path.join(common.WORK, 'llsym', name)
     shutil.rmtree(work, ignore_errors=True)
     os.makedirs(work)
@@ -145,6 +148,8 @@ def build(name, ffi=False, no_inline=True, opt='-O1', extra_defs=(), src=None):
     if not os.path.isdir(os.path.join(r, 'girepository')):
         raise BuildError('no girepository/ under %s' % r)
     write_giversion(work)
+    if prepare is not None:
+        prepare(work)
     ffi_vals = None
     if ffi:
         ffi_vals = probe_ffi(work)
@@ -152,7 +157,7 @@ def build(name, ffi=False, no_inline=True, opt='-O1', extra_defs=(), src=None):
     inc = ['-I', SHIM, '-I', work, '-I', HARNESS_C, '-I', os.path.join(r, 'girepository'),
            '-I', r, '-I', FFI_INC, '-DGI_COMPILATION', '-DGI_VERIF'] + list(extra_defs)
     ll = os.path.join(work, name + '.ll')
-    cmd = ['clang', opt, '-S', '-emit-llvm', '-std=gnu99', '-w', '-DLLSYM_IR'] + \
+    cmd = ['clang', opt, '-S', '-emit-llvm', '-std=gnu99', '-w', '-DLLSYM_IR'] + list(ir_cflags) + \
         (['-fno-inline'] if no_inline else []) + inc + [src, '-o', ll]
     _run(cmd)
     native = os.path.join(work, name + '.native')
